@@ -60,10 +60,11 @@ var apiCmd = &cobra.Command{
 			apiContent := cmd_util.ReadCocaFile("apis.json")
 			if apiContent == nil {
 				forceUpdateApi()
+			} else {
+				// the decoder fills what is already there: start from an empty model
+				restApis = nil
+				_ = json.Unmarshal(apiContent, &restApis)
 			}
-			// the decoder fills what is already there: start from an empty model
-			restApis = nil
-			_ = json.Unmarshal(apiContent, &restApis)
 		}
 
 		parsedDeps := cmd_util.GetDepsFromJson(depPath)
